@@ -65,6 +65,8 @@ def main():
             res['repo_head'] = sh(['git', '-C', '/repo', 'log',
                                    '--format=%h', '-1'])[1].strip()
             rc, out = sh(['git', '-C', wt, 'apply', patch])
+            if rc != 0:
+                rc, out = sh(['patch', '-d', wt, '-p1', '-F3', '-i', patch])
             res['patch_applies'] = rc == 0
             if rc != 0:
                 res['status'] = 'patch-does-not-apply'
